@@ -625,6 +625,13 @@ func (h *histRun) mkBeh(kind string, f *fakeSrv, known map[glow.PublicKey]client
 			extra = append(extra, h.signedEntry(h.gca, nf, h.rng.Chance(25)))
 			h.count("reply.new-server")
 		}
+		if !h.plain && h.rng.Chance(30) {
+			// a banned server the client has never heard of, with a location of boundary length (255 bytes is
+			// the longest the reply can carry): recorded and saved like any other
+			n := []int{255, 254, 0, 1, 255}[h.rng.Intn(5)]
+			extra = append(extra, mkAS(h.tab, h.gca, newKey().pub, true, strings.Repeat("l", n), 1, 2, 3))
+			h.count("reply.location-boundary")
+		}
 		var banKey *glow.PublicKey
 		if !h.plain && h.rng.Chance(35) {
 			ks := sortedKeys(known)
